@@ -2,6 +2,7 @@ package e1
 
 import (
 	"fmt"
+	"os"
 	"strconv"
 	"strings"
 	"time"
@@ -64,7 +65,78 @@ func mixCase(r *core.Rand, s string) string {
 	return string(b)
 }
 
+// genC04Parallel is the race-sweep shape: several attacker connections fire
+// adversarial commands at the same typed keys at once, free-running on real
+// threads; what the oracle can see there is a runtime abort (concurrent map
+// access, index out of range on a slice another command shrank, nil
+// dereference) or the race detector's report of the map race behind it.
+func genC04Parallel(r *core.Rand, env *core.Env, run int) *Scenario {
+	sc := &Scenario{Kind: "C04"}
+	sc.Knobs = Knobs{ShardNum: pick(r, []int{1, 2, 8, 1024}), Databases: 1, MaxSteps: 30000, IdleBudget: 60, Preload: c04Preload()}
+	nc := 2 + r.Intn(3)
+	// few keys so that the connections meet: one or two of the typed keys
+	keys := []string{pick(r, typedKeys[:6])}
+	if r.Bool(0.4) {
+		keys = append(keys, pick(r, typedKeys))
+	}
+	fam := map[string][]string{
+		"ks": {"set", "get", "append", "incr", "setrange", "getrange", "strlen", "setnx", "setex", "incrbyfloat", "decrby"},
+		"kl": {"lpush", "rpush", "lpop", "rpop", "lrange", "lindex", "lset", "lrem", "ltrim", "llen", "lpos", "lmove", "lpushx"},
+		"kh": {"hset", "hsetnx", "hget", "hdel", "hgetall", "hincrby", "hincrbyfloat", "hkeys", "hvals", "hlen", "hmget", "hexists", "hstrlen", "hrandfield"},
+		"kS": {"sadd", "srem", "smembers", "sismember", "scard", "spop", "srandmember", "smove", "sunion", "sinter", "sdiff", "sunionstore", "sscan"},
+		"kz": {"zadd", "zrem", "zrange", "zrank"},
+		"kx": {"xadd", "xrange"},
+	}
+	generic := []string{"del", "exists", "type", "ttl", "expire", "persist", "rename", "keys"}
+	for ci := 0; ci < nc; ci++ {
+		cp := ClientProg{Name: fmt.Sprintf("c%d", ci), Role: "attacker", Pipeline: 1 + r.Intn(4)}
+		for i, n := 0, 6+r.Intn(10); i < n; i++ {
+			key := pick(r, keys)
+			var name string
+			switch {
+			case r.Bool(0.7) && len(fam[key]) > 0:
+				name = pick(r, fam[key])
+			case r.Bool(0.5):
+				name = pick(r, generic)
+			default:
+				name = pick(r, allCommands)
+			}
+			if name == "subscribe" || name == "blpop" || name == "brpop" || name == "rconf" || name == "member" || name == "" {
+				name = "ping"
+			}
+			a := []B{B(name), B(key)}
+			for j, extra := 0, r.Intn(5); j < extra; j++ {
+				switch {
+				case r.Bool(0.3) && len(cmdOptions[name]) > 0:
+					a = append(a, B(pick(r, cmdOptions[name])))
+				case r.Bool(0.3):
+					a = append(a, B(pick(r, keys)))
+				case r.Bool(0.5):
+					a = append(a, B(pick(r, []string{"f", "n", "m1", "m2", "a", "b", "v", "1", "2", "0", "-1", "1.5"})))
+				default:
+					a = append(a, B(pick(r, advAlphabet)))
+				}
+			}
+			if knownClassC04(env, a) && run%8 != 7 {
+				continue
+			}
+			cp.Steps = append(cp.Steps, Step{Kind: "cmd", Args: a, Tag: "attack"})
+		}
+		cp.Steps = append(cp.Steps, Step{Kind: "cmd", Args: bs("ping"), Tag: "probe"})
+		sc.Clients = append(sc.Clients, cp)
+	}
+	late := ClientProg{Name: fmt.Sprintf("c%d", nc), Role: "auditor", Pipeline: 1, Steps: []Step{{Kind: "barrier"}, {Kind: "cmd", Args: bs("ping")}}}
+	for _, k := range typedKeys {
+		late.Steps = append(late.Steps, Step{Kind: "cmd", Args: bs("type", k)}, Step{Kind: "cmd", Args: bs("del", k)})
+	}
+	sc.Clients = append(sc.Clients, late)
+	return sc
+}
+
 func genC04(r *core.Rand, env *core.Env, run int) *Scenario {
+	if os.Getenv("VERIF_RACE") == "1" {
+		return genC04Parallel(r, env, run)
+	}
 	sc := &Scenario{Kind: "C04"}
 	sc.Knobs = Knobs{ShardNum: pick(r, []int{1, 2, 8, 1024}), Databases: pick(r, []int{1, 2, 16}), MaxSteps: 30000, IdleBudget: 60,
 		Strategy: pick(r, []int{0, 1}), Preload: c04Preload()}
